@@ -667,7 +667,7 @@ pub fn run(ctx: &Ctx) -> Outcome {
         return replay(p);
     }
     let workers = ctx.workers;
-    let total = if ctx.miri() { 2 } else { ctx.vol(40_000, 1_500_000) };
+    let total = if ctx.miri() { 2 } else { ctx.vol(100_000, 1_500_000) };
     let mut out = fw::par(ctx, workers, |wk, mut rng| {
         let mut o = Outcome::new();
         let rt = tokio::runtime::Builder::new_current_thread().enable_all().build().expect("runtime");
